@@ -123,8 +123,13 @@ class Ctx:
             raise AnalysisError(what)
 
     # ---------------------------------------------------------------- finish
+    def undecided(self, rule: str, what: str):
+        """a rule instance the analysis cannot decide: the run ends as ANALYSIS-ERROR (exit 2)
+        unless another rule reports a violation, which is then the verdict."""
+        self.__dict__.setdefault("_undecided", []).append(f"{rule}: undecided - {what}")
+
     def floor_failures(self) -> List[str]:
-        return [
+        return list(self.__dict__.get("_undecided", [])) + [
             f"rule {name} matched {r['instances']} instance(s), fewer than the floor {r['floor']} "
             f"confirmed by hand: the rule has gone vacuous (anchor renamed / idiom changed?)"
             for name, r in self.rules.items()
